@@ -1287,12 +1287,17 @@ func (t *tally) sub(bound string) core.Sub {
 }
 
 // writeStats (shard) / mergeStats (coordinator): see tally.
-func writeStats() {
+type shardFile struct {
+	Tallies    []*tally         `json:"tallies"`
+	Violations []core.Violation `json:"violations"`
+}
+
+func writeStats(res *core.Result) {
 	dir := os.Getenv("C09_STATS_DIR")
 	if dir == "" || core.Opts().Shard < 0 {
 		return
 	}
-	b, _ := json.Marshal(tallies)
+	b, _ := json.Marshal(shardFile{tallies, res.Violations})
 	os.WriteFile(filepath.Join(dir, fmt.Sprintf("shard%03d.json", core.Opts().Shard)), b, 0600)
 }
 
@@ -1300,16 +1305,24 @@ func mergeStats(res *core.Result, dir string) {
 	files, _ := filepath.Glob(filepath.Join(dir, "shard*.json"))
 	sort.Strings(files)
 	agg := map[string]*tally{}
+	// the example kept for a signature does not depend on which shard
+	// finished first: the one with the smallest description wins
+	best := map[string]core.Violation{}
 	for _, f := range files {
 		b, err := os.ReadFile(f)
 		if err != nil {
 			continue
 		}
-		var ts []*tally
-		if json.Unmarshal(b, &ts) != nil {
+		var sf shardFile
+		if json.Unmarshal(b, &sf) != nil {
 			continue
 		}
-		for _, t := range ts {
+		for _, v := range sf.Violations {
+			if w, ok := best[v.Signature]; !ok || v.What < w.What {
+				best[v.Signature] = v
+			}
+		}
+		for _, t := range sf.Tallies {
 			a := agg[t.Name]
 			if a == nil {
 				a = &tally{Name: t.Name, Stricter: map[string]int64{}, Outcomes: map[string]int64{}}
@@ -1342,6 +1355,11 @@ func mergeStats(res *core.Result, dir string) {
 		}
 	}
 	sort.Slice(res.Subs, func(i, j int) bool { return res.Subs[i].Name < res.Subs[j].Name })
+	for i := range res.Violations {
+		if v, ok := best[res.Violations[i].Signature]; ok {
+			res.Violations[i] = v
+		}
+	}
 }
 
 func mine(i int64) bool {
@@ -1591,10 +1609,10 @@ func jwtAlphabets(h *harness) []jwtAlpha {
 		T:      pickIdx(len(timeSpecs), []int{0, 1, 2, 3}),
 		A:      pickIdx(len(audSpecs), []int{0, 1, 2, 3, 4, 5, 6, 10}),
 		I:      rangeN(len(inclNames)),
-		U:      []int{3},
-		P:      []int{2},
+		U:      core.Pick([]int{3}, []int{0, 3}),
+		P:      core.Pick([]int{2}, []int{0, 2, 4}),
 		groups: core.Pick([]string{"a", "a/b", "ab"}, []string{"a", "a/b", "ab", ""}),
-		clis:   []int{2},
+		clis:   core.Pick([]int{2}, []int{0, 2}),
 	}
 	// claims layer: a spine of signers (a good one of each key family, a
 	// foreign key, alg none, two confusion attacks) x a few key sets, fully
@@ -1667,7 +1685,7 @@ func main() {
 		}
 	}
 	os.RemoveAll(h.root)
-	writeStats()
+	writeStats(res)
 	core.Finish(res, start)
 }
 
